@@ -271,8 +271,27 @@ func (u *Unit) copyBuiltin(st *State, fr *Frame, in *ssa.Call, args []Val) Val {
 
 func (u *Unit) copyList(st *State, fr *Frame, dst, src SliceV) Val {
 	if dst.List == nil || src.List == nil || !dst.Len.IsInt || !src.Len.IsInt {
-		u.limit("copy between non-byte slices of symbolic length in %s", FuncName(fr.fn))
-		return u.freshVal(st, types.Typ[types.Int], "copyn", false)
+		// symbolic length: the destination's elements become unknown (a
+		// sound over-approximation); a destination that existed before the
+		// call is a frame violation like any other store
+		if dst.List != nil {
+			if dst.List.Sym && !dst.List.New {
+				st.written = true
+				if u.Cfg.FrameCheck && u.specMode == 0 {
+					u.check(st, u.oblName(fr.fn, "frame", "copy into a list that existed before the call"), "frame", Eq(dst.Len, IntLit(0)), "store into memory that existed before the call")
+				}
+			}
+			for key, oc := range u.cellIdx {
+				if strings.HasPrefix(key, fmt.Sprintf("list%d[", dst.List.ID)) {
+					delete(st.cells, oc.ID)
+					st.symCells[oc.ID] = true
+				}
+			}
+			u.StoresSeen++
+		}
+		n := u.newInt("copyn")
+		u.assume(And(Le(IntLit(0), n), Le(n, dst.Len), Le(n, src.Len)))
+		return n
 	}
 	n := dst.Len.I.Int64()
 	if src.Len.I.Int64() < n {
